@@ -1,5 +1,40 @@
-"""Second half of C04: independence of the 512 availability bits (server/Availability.tla). Filled in later."""
+"""Second half of C04: independence of the 512 availability bits (spec server/Availability.tla)."""
+import json
+import os
+
+import vlib
+
+MOD = "server/Availability.tla"
+
+
+def signature(rec):
+    return "avail:%s" % rec.get("ev")
 
 
 def run(ctx):
-    pass
+    cfg = "MC_C04_avail_quick.cfg" if ctx.quick else "MC_C04_avail_thorough.cfg"
+    if not ctx.quick:
+        # the thorough config has no edge dump of its own: check it, then replay the quick graph
+        res = ctx.model_check(MOD, cfg, workers=4)
+        vlib.require_ok(res, cfg)
+        ctx.add_tlc(cfg, res, "exhaustive over 12 boundary indices (4096 states), 512^2 offset pairs (ASSUME)")
+    out = vlib.edge_replay_flow(
+        ctx, module=MOD, cfg="MC_C04_avail_quick.cfg", negs={"NEG_C04_avail_SharedWord.cfg": ["assumption", "C04_BitsIndependent"]},
+        tmodule="server/AvailabilityTrace.tla", tcfg="Trace_C04_avail.cfg", harness="vsrv", mode="avail",
+        signature=signature, tag="c04avail", budget=6000 if ctx.quick else 40000)
+    # offset table emitted by TLC (ASSUME PrintT) against the real Availability::offset + exhaustive pair check
+    mc_out = open(os.path.join(ctx.workdir, "c04avail-mc.out")).read()
+    tables = list(vlib.tagged_json(mc_out, "VEC"))
+    if not tables:
+        raise vlib.ToolError("Availability.tla did not emit the offset table")
+    tfile = os.path.join(ctx.workdir, "avail-table.ndjson")
+    vlib.write_ndjson(tfile, [tables[0]])
+    r = vlib.run_harness("vsrv", ["avail-table", "--table", tfile])
+    summ = json.loads(r.stdout.strip().splitlines()[-1])
+    ctx.cov["availability_pairs_checked"] = summ["pairs"]
+    ctx.cov["availability_offsets_checked"] = summ["indices"]
+    ctx.cov["evaluations"] += summ["indices"]
+    if summ["mismatches"]:
+        ctx.violation("avail:table", "Availability disagrees with the specification: %s" % json.dumps(summ["first_mismatches"][:3]),
+                      {"mode": "avail-table", "mismatches": summ["first_mismatches"]})
+    return out
